@@ -15,7 +15,7 @@ RULES = [   # (file regex, item regex, properties); first match wins
     (r"derive/src/traits\.rs", r"bytemuck_crate_name$", INFRA + ["C18"]),
     (r"derive/src/traits\.rs", r"parse_int_expr$|VariantDiscriminantIterator|enum_has_fields$|get_enum_variants$", ["C06", "C08", "C17"]),
     (r"derive/src/traits\.rs", r"Contiguous", ["C06", "C17"]),
-    (r"derive/src/traits\.rs", r"generate_checked_bit_pattern_enum_without_fields$", ["C06"]),
+    (r"derive/src/traits\.rs", r"generate_checked_bit_pattern_enum_without_fields$", ["C06", "C08"]),
     (r"derive/src/traits\.rs", r"generate_checked_bit_pattern_enum$", ["C06", "C08"]),
     (r"derive/src/traits\.rs", r"generate_checked_bit_pattern_(struct|enum_with_fields)$", ["C08"]),
     (r"derive/src/traits\.rs", r"CheckedBitPattern::(asserts|trait_impl)$", ["C08"]),
